@@ -1370,8 +1370,14 @@ def np_angle(ctx, v):
 
 def _max_symbolic(ctx, a, kind):
     """np.max / np.min over a symbolic extent: a fresh value with the defining axioms (library contract)."""
+    key = (kind, a.cell.id, len(a.cell.writes), tuple(str(d) for d in a.shape))
+    cache = ctx.__dict__.setdefault('_minmax', {})
+    if (kind, a.cell.id) in cache and not a.cell.writes:
+        return cache[(kind, a.cell.id)]
     snap = a.snapshot()
     mx = ctx.fresh_real('np_' + kind)
+    if not a.cell.writes and a.is_identity_view():
+        cache[(kind, a.cell.id)] = mx
     idx = [z3.Int(ctx._name('mxi')) for _ in a.shape]
     rng = z3.And(*[z3.And(i >= 0, i < S.z(d)) for i, d in zip(idx, a.shape)])
     v = S.z(S.num(snap.at(tuple(idx))))
@@ -1544,3 +1550,61 @@ def np_ndenumerate(ctx, a):
     if a.ndim != 1 or S.is_z3(a.shape[0]):
         raise Unsupported('ndenumerate over a symbolic / multi-dimensional array')
     return IterList([((i,), a.at((i,))) for i in range(a.shape[0])])
+
+
+@lib('numpy.diff')
+def np_diff(ctx, a):
+    a = arr(ctx, a)
+    if a.ndim != 1:
+        raise Unsupported('diff rank')
+    snap = a.snapshot()
+    n = a.shape[0]
+    return Arr.from_fn((S.max_(S.sub(n, 1), 0),), a.dtype if a.dtype != 'bool' else 'int',
+                       lambda idx: S.sub(snap.at((S.add(idx[0], 1),)), snap.at((idx[0],))))
+
+
+@lib('numpy.sort', 'abstract')
+def np_sort(ctx, a):
+    a = arr(ctx, a)
+    out = A.fresh_array(ctx, 'sorted', a.shape, a.dtype)
+    return out
+
+
+@lib('numpy.concatenate')
+def np_concatenate(ctx, parts):
+    items = [arr(ctx, p) for p in items_of(ctx, parts)]
+    out = items[0]
+    for p in items[1:]:
+        out = np_append(ctx, out, p)
+    return out
+
+
+@lib('numpy.hstack')
+def np_hstack(ctx, parts):
+    return np_concatenate(ctx, parts)
+
+
+@lib('numpy.trapz')
+def np_trapz(ctx, y, x=None, dx=None):
+    """sum_k (x[k+1] - x[k]) (y[k] + y[k+1]) / 2"""
+    y = arr(ctx, y)
+    ys = y.snapshot()
+    n = y.shape[0]
+    if x is not None:
+        xs = arr(ctx, x).snapshot()
+        w = lambda k: S.sub(xs.at((S.add(k, 1),)), xs.at((k,)))
+    else:
+        d = 1 if dx is None else dx
+        w = lambda k: d
+    body = lambda k: S.truediv(S.mul(w(k), S.add(ys.at((k,)), ys.at((S.add(k, 1),)))), 2)
+    return _sum_over(S.max_(S.sub(n, 1), 0), body)
+
+
+@lib('method:ndarray.min')
+def nd_min(ctx, a, axis=None):
+    return np_min(ctx, a, axis)
+
+
+@lib('method:ndarray.max')
+def nd_max(ctx, a, axis=None):
+    return np_max(ctx, a, axis)
